@@ -92,17 +92,17 @@ def main(run: core.Run) -> None:
 
     drift = R.fingerprint_drift()
     run.coverage["fingerprint_drift"] = drift
-    n_models = run.size(2000, 12000)
+    n_models = run.size(1600, 12000)
     if drift and run.tier == "quick":
         n_models *= 3
-    models = R.gen_stream(run, n_models, stats)
+    models = R.gen_stream(run, n_models, stats) + R.directed_tie_models()
 
     # ---- tie
     tie_problems = R.fold_tie(run, drv, models, stats, hist)
 
     # ---- the property's own oracle, routinely: ORT before/after, several APIs and option tuples
     sem_failures = []
-    n_sem = run.size(700, 5000)
+    n_sem = run.size(600, 5000)
     for k, (m, meta) in enumerate(models[:n_sem]):
         feeds = R.three_feeds(m, run.rng)
         combos = [("optimize", R.OPTION_TUPLES[k % len(R.OPTION_TUPLES)]), ("optimize", {}),
@@ -194,7 +194,7 @@ def main(run: core.Run) -> None:
     must = ["fold:initializer", "gate:graphinput", "gate:inputsize", "gate:alwaysfold", "gate:outputsize", "gate:blacklist",
             "gate:nondeterministic", "gate:controlflow", "subst:alias", "out:replaced", "if:then", "if:else",
             "dropout:2out", "castlike:cast", "cast:identity", "reshape:identity", "expand:identity", "concat:dropzero",
-            "shape:const", "gather:const", "seqat:identity", "clear:initializer"]
+            "shape:const", "gather:const", "seqat:identity", "clear:initializer", "thm:fragmentA"]
     missing = [b for b in must if hist[b] == 0] + [t for t in ("loop", "scan", "expand_othershape", "const_optional_gap",
                                                                 "initinput_optional_operand", "branch_alias_outer") if tagc[t] == 0]
     if missing:
